@@ -122,62 +122,79 @@ var infoSrv = func() *infoServer {
 }()
 
 func TestPropGatewaySideRouting(t *testing.T) {
-	sub := stats.NewSub("gateway-side-routing", "rapid: shard count N in [1,64], a leader address per shard (some shards without leader), 1-6 upstream names; the real gateway-side client set (verif constructor, no background loops) is synced once from a /ratelimit/endpoints reply; oracle: ShardIDFor(name) = reference shard, ClientFor(name) addresses exactly the leader announced for that shard, a shard without leader gives an error; non-trivial = N >= 2 and >= 2 distinct leaders; distinct by FNV-64 of (N, leaders, names)")
+	sub := stats.NewSub("gateway-side-routing", "rapid: 1-3 rounds on ONE real gateway-side client set (verif constructor, no background loops), each round a /ratelimit/endpoints reply with its own shard count N in [1,64] (the limiter deployment may be resharded) and a leader address per shard (some shards not announced), then lookups for the same 1-6 upstream names; oracle after every sync: ShardIDFor(name) = reference shard for the CURRENT N (the mapping depends only on the name and N, not on what was looked up before), ClientFor(name) addresses exactly the leader last announced for that shard, a shard never announced gives an error; non-trivial = N >= 2 and >= 2 distinct leaders; distinct by FNV-64 of the rounds and names")
 	stats.Check(t, stats.N(3000, 40000), func(t *rapid.T) {
-		n := rapid.IntRange(1, 64).Draw(t, "N")
-		leaders := map[int]string{}
-		distinct := map[string]bool{}
-		info := proxyv1alpha1.RateLimitServerInfo{Server: "s", ShardCount: int32(n)}
-		for s := 0; s < n; s++ {
-			k := rapid.IntRange(0, 4).Draw(t, fmt.Sprintf("leader[%d]", s))
-			if k == 0 {
-				continue // no leader known for this shard
-			}
-			l := fmt.Sprintf("http://limiter-%d.example:80%d", k, k)
-			leaders[s] = l
-			distinct[l] = true
-			info.Endpoints = append(info.Endpoints, proxyv1alpha1.EndpointInfo{Leader: l, ShardID: int32(s)})
-		}
 		names := rapid.SliceOfN(rapid.Custom(func(t *rapid.T) string { return genName(t, "name") }), 1, 6).Draw(t, "names")
-		infoSrv.mu.Lock()
-		infoSrv.info = info
-		infoSrv.mu.Unlock()
 		cs := clientsets.VerifNewClientSets(&rest.Config{}, "gw-1", func(string) []string { return []string{infoSrv.srv.URL} })
-		clientsets.VerifSync(cs)
+		rounds := rapid.IntRange(1, 3).Draw(t, "rounds")
+		known := map[int]string{} // shard -> leader last announced
+		nt := false
+		desc := ""
+		prevN := 0
 		sub.Eval()
-		if n >= 2 && len(distinct) >= 2 {
-			sub.NonTrivial(stats.Hash(n, fmt.Sprint(leaders), names))
-		}
-		for _, name := range names {
-			want := refShard(name, n)
-			got, err := cs.ShardIDFor(name)
-			if err != nil {
-				t.Fatalf("ShardIDFor(%q) after a sync with N=%d: %v", name, n, err)
+		for r := 0; r < rounds; r++ {
+			n := rapid.IntRange(1, 64).Draw(t, fmt.Sprintf("N[%d]", r))
+			if r > 0 && rapid.IntRange(0, 3).Draw(t, fmt.Sprintf("keepN[%d]", r)) == 0 {
+				n = prevN
 			}
-			if got != want {
-				t.Fatalf("gateway maps %q to shard %d of %d, reference (and server) %d", name, got, n, want)
-			}
-			client, err := cs.ClientFor(name)
-			leader, has := leaders[want]
-			if !has {
-				if err == nil {
-					t.Fatalf("shard %d has no announced leader but ClientFor(%q) returned a client", want, name)
+			distinct := map[string]bool{}
+			info := proxyv1alpha1.RateLimitServerInfo{Server: "s", ShardCount: int32(n)}
+			for s := 0; s < n; s++ {
+				k := rapid.IntRange(0, 4).Draw(t, fmt.Sprintf("leader[%d][%d]", r, s))
+				if k == 0 {
+					continue // no leader announced for this shard
 				}
-				sub.Class("shard-without-leader")
-				continue
+				l := fmt.Sprintf("http://limiter-%d.example:80%d", k, k)
+				known[s] = l
+				distinct[l] = true
+				info.Endpoints = append(info.Endpoints, proxyv1alpha1.EndpointInfo{Leader: l, ShardID: int32(s)})
 			}
-			if err != nil {
-				t.Fatalf("ClientFor(%q): %v (leader of shard %d is %s)", name, err, want, leader)
+			infoSrv.mu.Lock()
+			infoSrv.info = info
+			infoSrv.mu.Unlock()
+			clientsets.VerifSync(cs)
+			desc += fmt.Sprintf("sync(N=%d,%v);", n, info.Endpoints)
+			if n >= 2 && len(distinct) >= 2 {
+				nt = true
 			}
-			u := client.ProxyV1alpha1().RESTClient().Get().AbsPath("/x").URL()
-			lu, _ := url.Parse(leader)
-			if u.Host != lu.Host {
-				t.Fatalf("requests for %q (shard %d) are addressed to %s, the announced leader is %s", name, want, u.Host, lu.Host)
+			if r > 0 && n != prevN {
+				sub.Class("shard-count-changed-between-syncs")
 			}
-			sub.Class("routed-to-leader")
+			prevN = n
+			for _, name := range names {
+				want := refShard(name, n)
+				got, err := cs.ShardIDFor(name)
+				if err != nil {
+					t.Fatalf("ShardIDFor(%q) after a sync with N=%d: %v", name, n, err)
+				}
+				if got != want {
+					t.Fatalf("gateway maps %q to shard %d of %d, reference (and server) %d\nhistory: %s", name, got, n, want, desc)
+				}
+				client, err := cs.ClientFor(name)
+				leader, has := known[want]
+				if !has {
+					if err == nil {
+						t.Fatalf("shard %d never had an announced leader but ClientFor(%q) returned a client\nhistory: %s", want, name, desc)
+					}
+					sub.Class("shard-without-leader")
+					continue
+				}
+				if err != nil {
+					t.Fatalf("ClientFor(%q): %v (leader of shard %d is %s)\nhistory: %s", name, err, want, leader, desc)
+				}
+				u := client.ProxyV1alpha1().RESTClient().Get().AbsPath("/x").URL()
+				lu, _ := url.Parse(leader)
+				if u.Host != lu.Host {
+					t.Fatalf("requests for %q (shard %d) are addressed to %s, the announced leader is %s\nhistory: %s", name, want, u.Host, lu.Host, desc)
+				}
+				sub.Class("routed-to-leader")
+			}
 		}
-		if sub.WantSample() && n >= 3 {
-			sub.Sample(map[string]interface{}{"N": n, "leaders": fmt.Sprint(leaders), "names": names})
+		if nt {
+			sub.NonTrivial(stats.Hash(desc, names))
+		}
+		if sub.WantSample() && prevN >= 3 {
+			sub.Sample(map[string]interface{}{"history": desc, "names": names})
 		}
 	})
 }
